@@ -6,14 +6,14 @@
   Class (E): `divM` fails exactly on a zero divisor, `mag = |·|`, `lt = <`.
 
   Contents
-  * `luPivot_spec`      pivot search: index in range, non-zero pivot, or the column is zero
-  * `luElimRow_spec`    pointwise description of one row elimination (multiplier stored in place)
+  * `luPivot_spec_det`      pivot search: index in range, non-zero pivot, or the column is zero
+  * `luElimRow_spec_det`    pointwise description of one row elimination (multiplier stored in place)
   * `luElimCol_spec`    … of the whole column loop
-  * `luStep_spec`       … of one step of the factorisation (skip / swap + eliminate)
+  * `luStep_spec_det`       … of one step of the factorisation (skip / swap + eliminate)
   * `Umat`              the current matrix with the stored multipliers masked
   * `Umat_skip`, `det_Umat_swap`, `det_Umat_elim`, `det_Umat_full`   row operations and `det`
   * `LUrel`, `LUrel_skip`, `LUrel_swap`, `LUrel_elim`   the entrywise relation `P·A = L⁽ⁱ⁾·U⁽ⁱ⁾`
-  * `luDecomp_spec`     `luDecomp` never fails on a square matrix; `det U = (-1)^p · det A`,
+  * `luDecomp_spec_det`     `luDecomp` never fails on a square matrix; `det U = (-1)^p · det A`,
                         `det P = (-1)^p`, `P·A = L·U` (`LU_eq_PA`)
   * `invAcc_spec`, `invFwd_spec`, `invBack_spec`, `inverseLoop_spec`   substitution loops
   * `inverse_spec`      `det A ≠ 0 → inverse A = .ok B ∧ A·B = 1`
@@ -50,7 +50,7 @@ attribute [local instance] Alg.scalarExt
 /-- `luPivot` on column `i` of a described `n × n` matrix: the call succeeds, the returned row
     index lies in `[i, n)`, a non-zero returned magnitude means the entry found is non-zero, and a
     zero magnitude means the column is zero on and below the diagonal. -/
-theorem luPivot_spec {m : Mat K} {n : Nat} {w : Nat → Nat → K} (h : Is m n n w) {i : Nat}
+theorem luPivot_spec_det {m : Mat K} {n : Nat} {w : Nat → Nat → K} (h : Is m n n w) {i : Nat}
     (hi : i < n) :
     ∃ mx imax, luPivot m i = .ok (mx, imax) ∧ i ≤ imax ∧ imax < n ∧
       (mx = 0 → ∀ k, i ≤ k → k < n → w k i = 0) ∧ (mx ≠ 0 → w imax i ≠ 0) := by
@@ -103,7 +103,7 @@ def elimRowFn (w : Nat → Nat → K) (i j : Nat) : Nat → Nat → K := fun a b
      else if i < b then w j b - w j i / w i i * w i b else w j b)
   else w a b
 
-theorem luElimRow_spec {m : Mat K} {n : Nat} {w : Nat → Nat → K} (h : Is m n n w) {i j : Nat}
+theorem luElimRow_spec_det {m : Mat K} {n : Nat} {w : Nat → Nat → K} (h : Is m n n w) {i j : Nat}
     (hi : i < n) (hj : j < n) (hij : i ≠ j) (hp : w i i ≠ 0) :
     ∃ m', luElimRow i m j = .ok m' ∧ Is m' n n (elimRowFn w i j) := by
   unfold luElimRow
@@ -178,7 +178,7 @@ theorem luElimCol_spec {m : Mat K} {n : Nat} {w : Nat → Nat → K} (h : Is m n
   have hpiv : elimColFn w i j i i = w i i := by
     have : ¬ (i < i ∧ i < j) := by omega
     simp [elimColFn, this]
-  obtain ⟨s', hs', hI⟩ := luElimRow_spec hs hi hj2 (by omega) (by rw [hpiv]; exact hp)
+  obtain ⟨s', hs', hI⟩ := luElimRow_spec_det hs hi hj2 (by omega) (by rw [hpiv]; exact hp)
   refine ⟨s', hs', hI.congr ?_⟩
   intro a b _ _
   have e1 : ¬ (i < i ∧ i < j) := by omega
@@ -207,14 +207,14 @@ theorem swapFn_self (w : Nat → Nat → K) (r : Nat) : swapFn w r r = w := by
     zero on and below the diagonal and the state is returned unchanged, or a row `imax ∈ [i, n)`
     with a non-zero entry is exchanged with row `i` (in the matrix and in the recorded
     permutation, counting one exchange when `imax ≠ i`) and the column is eliminated. -/
-theorem luStep_spec {s : LU K} {n : Nat} {w pe : Nat → Nat → K} (hw : Is s.lu n n w)
+theorem luStep_spec_det {s : LU K} {n : Nat} {w pe : Nat → Nat → K} (hw : Is s.lu n n w)
     (hpe : Is s.perm n n pe) {i : Nat} (hi : i < n) :
     ∃ s', luStep s i = .ok s' ∧
       (((∀ k, i ≤ k → k < n → w k i = 0) ∧ s' = s) ∨
        (∃ imax, i ≤ imax ∧ imax < n ∧ w imax i ≠ 0 ∧
           Is s'.lu n n (elimColFn (swapFn w i imax) i n) ∧ Is s'.perm n n (swapFn pe i imax) ∧
           s'.pivots = s.pivots + (if imax = i then 0 else 1))) := by
-  obtain ⟨mx, imax, hpv, h1, h2, h3, h4⟩ := luPivot_spec hw hi
+  obtain ⟨mx, imax, hpv, h1, h2, h3, h4⟩ := luPivot_spec_det hw hi
   unfold luStep
   simp only [hpv, bind, Except.bind]
   by_cases h0 : mx = 0
@@ -521,7 +521,7 @@ theorem det_Umat_full (n : Nat) (w : Nat → Nat → K) :
     final in-place matrix, `pe` the recorded permutation matrix and `p` the number of recorded
     exchanges: `det (upper triangle of w) = (-1)^p · det A`, `det P = (-1)^p`, and
     `P·A = L·U` (`LUrel`). -/
-theorem luDecomp_spec {A : Mat K} {n : Nat} {a : Nat → Nat → K} (h : Is A n n a) :
+theorem luDecomp_spec_det {A : Mat K} {n : Nat} {a : Nat → Nat → K} (h : Is A n n a) :
     ∃ s w pe, luDecomp A = .ok s ∧ Is s.lu n n w ∧ Is s.perm n n pe ∧
       (Umat n n w).det = (-1) ^ s.pivots * (toMat n a).det ∧
       (toMat n pe).det = (-1) ^ s.pivots ∧
@@ -544,7 +544,7 @@ theorem luDecomp_spec {A : Mat K} {n : Nat} {a : Nat → Nat → K} (h : Is A n 
       LUrel_zero n a _ (fun r c hr _ => PAfn_eye n a hr c)⟩
     (by
       rintro i s _ hi ⟨w, pe, hw, hpe, hdet, hdp, hLU⟩
-      obtain ⟨s', hs', hcase⟩ := luStep_spec hw hpe hi
+      obtain ⟨s', hs', hcase⟩ := luStep_spec_det hw hpe hi
       refine ⟨s', hs', ?_⟩
       rcases hcase with ⟨hz, rfl⟩ | ⟨imax, h1, h2, hne, hl, hp, hpiv⟩
       · exact ⟨w, pe, hw, hpe, by rw [Umat_skip hz]; exact hdet, hdp, LUrel_skip hz hLU⟩
@@ -573,7 +573,7 @@ theorem luDecomp_spec {A : Mat K} {n : Nat} {a : Nat → Nat → K} (h : Is A n 
 theorem luDecomp_det {A : Mat K} {n : Nat} {a : Nat → Nat → K} (h : Is A n n a) :
     ∃ s w pe, luDecomp A = .ok s ∧ Is s.lu n n w ∧ Is s.perm n n pe ∧
       (Umat n n w).det = (-1) ^ s.pivots * (Matrix.of fun (r c : Fin n) => a r.val c.val).det := by
-  obtain ⟨s, w, pe, hs, hw, hpe, hdet, _, _⟩ := luDecomp_spec h
+  obtain ⟨s, w, pe, hs, hw, hpe, hdet, _, _⟩ := luDecomp_spec_det h
   exact ⟨s, w, pe, hs, hw, hpe, hdet⟩
 
 /-! ### the substitution loops of `inverse` -/
@@ -970,7 +970,7 @@ theorem inverse_spec {A : Mat K} {n : Nat} {a : Nat → Nat → K} (h : Is A n n
     (hdet : (toMat n a).det ≠ 0) :
     ∃ (B : Mat K) (b : Nat → Nat → K), inverse A = .ok B ∧ Is B n n b ∧
       toMat n a * toMat n b = 1 := by
-  obtain ⟨s, w, pe, hs, hw, hpe, hdU, hdP, hLU⟩ := luDecomp_spec h
+  obtain ⟨s, w, pe, hs, hw, hpe, hdU, hdP, hLU⟩ := luDecomp_spec_det h
   have hd : ∀ k, k < n → w k k ≠ 0 := by
     have hne : (Umat n n w).det ≠ 0 := by
       rw [hdU]
@@ -1061,7 +1061,7 @@ theorem invBack_fails {lu inv : Mat K} {n : Nat} {w v : Nat → Nat → K} (hw :
     the skipped column left a zero on the diagonal of `U` -/
 theorem inverse_singular {A : Mat K} {n : Nat} {a : Nat → Nat → K} (h : Is A n n a)
     (hdet : (toMat n a).det = 0) : inverse A = .error .arith := by
-  obtain ⟨s, w, pe, hs, hw, hpe, hdU, hdP, hLU⟩ := luDecomp_spec h
+  obtain ⟨s, w, pe, hs, hw, hpe, hdU, hdP, hLU⟩ := luDecomp_spec_det h
   have hz : ∃ k, k < n ∧ w k k = 0 := by
     have h0 : (Umat n n w).det = 0 := by rw [hdU, hdet, mul_zero]
     rw [det_Umat_full, Finset.prod_eq_zero_iff] at h0
